@@ -5,6 +5,7 @@ CONSTANTS
   MaxMsgs = 1
   LenMode = "bytes"
   IdDecode = "strict"
+  NullResult = "ok"
   Variants <- VariantsDef
   ChunkMax = 1
   AllCuts = FALSE
